@@ -130,8 +130,30 @@ def classify(seg, idx, reason):
     return reason.replace(" ", "-")
 
 
-def collect(ctx, rejects, prop="C11"):
+LATE_ACCEPT = "open-ignored-during-leftover-substream-of-late-accept"
+
+
+def late_accept(peer_log, me):
+    """the peer accepted a validation for `me` and then saw that attempt fail (it accepted a dead substream)"""
+    acc = False
+    for d in peer_log:
+        if d.get("p") != me:
+            continue
+        if d["e"] == "val" and d.get("v") == "accept" and d.get("r") == "sent":
+            acc = True
+        elif d["e"] == "ev" and d.get("k") == "opened":
+            acc = False
+        elif d["e"] == "ev" and d.get("k") == "openfail" and acc:
+            return True
+    return False
+
+
+def collect(ctx, rejects, prop="C11", lines=None):
     violations = []
+    logs = {}
+    for seg in (nu.split_endpoints(lines) if lines else []):
+        h = json.loads(seg[0])
+        logs[(h.get("sc"), h.get("ep"))] = seg
     # a panicked protocol loop stops serving every peer: silence observed by the other endpoints of that
     # scenario is a consequence of the panic and is reported under the panic's signature
     panicked = {}
@@ -144,6 +166,12 @@ def collect(ctx, rejects, prop="C11"):
         hdr = json.loads(seg[0])
         if r.reason in ("open request never answered", "stream still open after the connection was lost") and hdr.get("sc") in panicked:
             sig = panicked[hdr.get("sc")]
+        elif r.reason == "open request never answered":
+            p = json.loads(seg[idx - 1]).get("p") or ""
+            # which peer was owed: the one with an unanswered obligated open; look at every peer's log of this scenario
+            for (sc, ep), pseg in logs.items():
+                if sc == hdr.get("sc") and ep != hdr.get("ep") and late_accept([json.loads(x) for x in pseg[1:]], hdr.get("ep")):
+                    sig = LATE_ACCEPT
         violations.append({"sig": sig, "what": "%s at endpoint %s of scenario %s: %s" % (r.reason, hdr.get("ep"), hdr.get("sc"), seg[idx - 1][:300]),
                            "replay_obj": {"property": prop, "reason": r.reason, "signature": sig, "scenario": hdr.get("sc"),
                                           "script": getattr(ctx, "scripts_by_id", {}).get(hdr.get("sc")),
@@ -172,7 +200,7 @@ def check(ctx):
     if sum(s["harness_panics"] for s in summs) or sum(s["connect_failed"] for s in summs) > len(scripts) // 10:
         raise ToolError("harness trouble: %s" % summs)
     nseg, nev, rejects = validate_all(ctx, "NotifTrace.tla", "NotifTrace.cfg", lines)
-    violations = collect(ctx, rejects)
+    violations = collect(ctx, rejects, lines=lines)
     save_known_repros(ctx, violations)
     nostream = sum(1 for ln in lines if '"r":"nostream"' in ln and '"m":"s"' in ln)
     if nostream:
